@@ -25,6 +25,7 @@ type vfC19Case struct {
 	Server      string `json:"server"` // finishes | cancel_early | cancel_late | keeps_sending | quiet
 	Reactive    bool   `json:"reactive"` // the server prints a prompt when it receives the cancel sequence
 	CtrlCMs     int    `json:"ctrlc_ms"` // -1: none
+	TypeFirst   string `json:"type_first,omitempty"` // "" | keys | ctrlc : after the hand-back the user types before the server prints anything
 	WaitS       int    `json:"wait_s,omitempty"` // how long to wait for the end event (default 8 s; the inactivity timers need 20 s and more)
 }
 
@@ -276,6 +277,24 @@ func vfC19Run(cs vfC19Case, res *vfC19Res) string {
 		}
 		time.Sleep(20 * time.Millisecond)
 	}
+	if cs.TypeFirst != "" {
+		// the session is over and the server stays quiet (a shell that waits for the next command): the next thing that happens is
+		// the user typing - ordinary keys with an erase among them, or a lone Ctrl-C. All of it belongs to the server.
+		keys := []byte("xy\x7fz\r")
+		if cs.TypeFirst == "ctrlc" {
+			keys = []byte{0x03}
+		}
+		shellBase := sess.shellIn.len()
+		sess.typeInput(keys)
+		dd := time.Now().Add(2 * time.Second)
+		for !bytes.Contains(sess.shellIn.bytes()[shellBase:], keys) && time.Now().Before(dd) {
+			time.Sleep(5 * time.Millisecond)
+		}
+		if !bytes.Contains(sess.shellIn.bytes()[shellBase:], keys) {
+			return fmt.Sprintf("1.5 s after the end event (%s) with a quiet server, typed input %q did not reach the server (it got %s) (helper=%s server=%s reactive=%v ctrl-c=%d)",
+				res.endEvent, keys, vfShort(sess.shellIn.bytes()[shellBase:], 60), cs.Helper, cs.Server, cs.Reactive, cs.CtrlCMs)
+		}
+	}
 	probe := []byte("<<ZMODEM-PROBE-OUTPUT>>")
 	probeFrom := sess.termOut.len()
 	sess.shellOutput(probe)
@@ -350,6 +369,7 @@ func vfGenC19(rt *rapid.T) vfC19Case {
 	if rapid.IntRange(0, 2).Draw(rt, "ctrlc") == 0 {
 		cs.CtrlCMs = rapid.SampledFrom([]int{0, 30, 90, 130, 200, 400, 900}).Draw(rt, "ctrlcms")
 	}
+	cs.TypeFirst = rapid.SampledFrom([]string{"", "", "keys", "ctrlc"}).Draw(rt, "typefirst")
 	// every case needs an end event: the helper exits, cannot start, the remote side cancels, or the user presses Ctrl-C
 	ends := cs.Helper == "exit_now" || cs.Helper == "missing" || cs.Server == "cancel_early" || cs.Server == "cancel_late" || cs.CtrlCMs >= 0 ||
 		((cs.Helper == "talk" || cs.Helper == "late:600") && cs.Server == "finishes") // a lingering helper never ends by itself
@@ -399,6 +419,9 @@ func TestVF_C19(t *testing.T) {
 		}
 		if cs.HeaderNoise != "" {
 			labels = append(labels, "header_with_"+cs.HeaderNoise)
+		}
+		if cs.TypeFirst != "" && cs.HeaderNoise == "" {
+			labels = append(labels, "typed_before_any_output_after_handback_"+cs.TypeFirst)
 		}
 		c.eval(cs, cs.HeaderNoise != "" || res.endEvent != "", labels...)
 		return msg
